@@ -11,6 +11,7 @@ type Result struct {
 	Hist []Ev
 	Rep  *vrt.Report
 	Env  *Env
+	Dev  *Dev // the chooser, when the schedule is a deviation list
 }
 
 func mkChooser(s Sched) vrt.Chooser {
@@ -55,5 +56,6 @@ func runCaseWith(c *Case, preRaw []adItem) *Result {
 		opt.StopWhen = func() bool { return e.adCalls >= cut }
 	}
 	rep := vrt.Run(opt, e.root)
-	return &Result{Case: c, Hist: e.hist, Rep: rep, Env: e}
+	d, _ := opt.Chooser.(*Dev)
+	return &Result{Case: c, Hist: e.hist, Rep: rep, Env: e, Dev: d}
 }
